@@ -34,7 +34,8 @@ list-comprehension filter on `_request_times`, `.append` / `+= 1` / `.add` on th
 and the learned patterns, `FilterResult(...)`, the hook call `if self.on_threat: self.on_threat(result)` (its
 exception aborts the rest), `for i, ch in enumerate(content): code = ord(ch); if <test>: return ...` -> `content.any`,
 `try: x = json.loads(content) ... except (<classes>): return ...` -> a match on the recorded outcome of `json.loads`.
-`self._measure_depth(parsed)` is the model's `measure` (its recursion is not translated).  The ghost tag of a result
+`self._measure_depth(parsed)` is `Tr.measure`, the translation of the recursion itself (tr_measure_depth; agreement with
+the model's `measure` by mutual induction).  The ghost tag of a result
 (rate / replay / scan) is assigned from the path: inside the true branch of the rate-check helper, inside the true
 branch of the `_blocked_hashes` membership test, otherwise scan.
 Anything else -> that definition becomes `untranslatable "<why>"` (a default value) and ITS agreement theorem fails;
@@ -941,7 +942,7 @@ def tr_validator(tree, clsname, lean_name, params, env):
                     and env.get(ast.unparse(v.args[0]), (None, None))[1] == "json":
                 env2 = dict(env)
                 env2[name] = (name, "nat")
-                return f"{pad}let {name} := measure md {env[ast.unparse(v.args[0])][0]} 0\n" + block(more, env2, depth)
+                return f"{pad}let {name} := Tr.measure md {env[ast.unparse(v.args[0])][0]} 0\n" + block(more, env2, depth)
             t, ty = ex.tr(v)
             env2 = dict(env)
             env2[name] = (name, ty)
@@ -991,6 +992,120 @@ def tr_validator(tree, clsname, lean_name, params, env):
 
 
 # ------------------------------------------------------------------------------------------------------------------
+
+# ------------------------------------------------------------------------------------------------------------------
+# JSONValidator._measure_depth: the recursion itself
+# ------------------------------------------------------------------------------------------------------------------
+def tr_measure_depth(tree):
+    """`JSONValidator._measure_depth(self, obj, current=0)` -> mutual `Tr.measure` / `Tr.measureMax` over the model's JSON
+    trees (`J`: scalar | node children; dicts and lists are both `node`, so the dict branch and the list branch must
+    translate to the same text).  Supported: `if <nat comparison>: …`, `if isinstance(obj, dict|list|(dict, list)): …`,
+    the emptiness test of the container (`if not obj:` / `if len(obj) == 0:`) -> a match on the children,
+    `return <nat expression over current / self.max_depth>`, and
+    `return max(self._measure_depth(v, <expr>) for v in obj[.values()])` on the non-empty side of the emptiness test
+    (`max()` of nothing raises).  Anything else -> Unsupported."""
+    cls = find_class(tree, "JSONValidator")
+    fn = find_fn(cls, "_measure_depth")
+    params = [a.arg for a in fn.args.args][1:]
+    if len(params) != 2 or len(fn.args.defaults) != 1 or not isinstance(fn.args.defaults[0], ast.Constant) \
+            or fn.args.defaults[0].value != 0:
+        bad(fn, "_measure_depth(self, obj, current=0) expected")
+    obj, cur = params
+
+    def nat(e):
+        if isinstance(e, ast.Name) and e.id == cur:
+            return "cur"
+        if isinstance(e, ast.Name) and e.id in MODULE_CONSTS and isinstance(MODULE_CONSTS[e.id], int):
+            return str(MODULE_CONSTS[e.id])
+        if is_self(e, "max_depth"):
+            return "md"
+        if isinstance(e, ast.Constant) and isinstance(e.value, int) and not isinstance(e.value, bool) and e.value >= 0:
+            return str(e.value)
+        if isinstance(e, ast.BinOp) and isinstance(e.op, ast.Add):
+            return f"{nat(e.left)} + {nat(e.right)}"
+        bad(e, f"expression {ast.unparse(e)[:30]}")
+
+    def kinds_of(test):
+        """isinstance(obj, X) -> set of container kinds tested, else None"""
+        if isinstance(test, ast.Call) and isinstance(test.func, ast.Name) and test.func.id == "isinstance" \
+                and len(test.args) == 2 and isinstance(test.args[0], ast.Name) and test.args[0].id == obj:
+            t = test.args[1]
+            names = [x.id for x in t.elts] if isinstance(t, ast.Tuple) and all(isinstance(x, ast.Name) for x in t.elts) \
+                else [t.id] if isinstance(t, ast.Name) else None
+            if names and set(names) <= {"dict", "list"}:
+                return set(names)
+        return None
+
+    def is_empty_test(test):
+        """-> True for `not obj` / `len(obj) == 0`, False for `obj` / `len(obj) > 0` …, None otherwise"""
+        u = ast.unparse(test).replace(" ", "")
+        if u in (f"not{obj}", f"len({obj})==0", f"{obj}=={{}}", f"{obj}==[]"):
+            return True
+        if u in (obj, f"len({obj})>0", f"len({obj})!=0", f"len({obj})>=1"):
+            return False
+        return None
+
+    def block(stmts, kind, nonempty, depth):
+        """kind: 'scalar' | 'dict' | 'list'; nonempty: None (unknown) | True | False"""
+        pad = IND * depth
+        stmts = [x for x in stmts if not is_docstring(x) and not is_print(x) and not isinstance(x, ast.Pass)]
+        if not stmts:
+            bad(fn, "a path falls off the end (returns None)")
+        st, more = stmts[0], stmts[1:]
+        if isinstance(st, ast.Return):
+            v = st.value
+            if isinstance(v, ast.Call) and isinstance(v.func, ast.Name) and v.func.id == "max" and len(v.args) == 1 \
+                    and isinstance(v.args[0], ast.GeneratorExp) and len(v.args[0].generators) == 1 \
+                    and not v.args[0].generators[0].ifs:
+                g = v.args[0].generators[0]
+                it = ast.unparse(g.iter).replace(" ", "")
+                want = {"dict": f"{obj}.values()", "list": obj}.get(kind)
+                call = v.args[0].elt
+                if it != want or not (isinstance(g.target, ast.Name) and isinstance(call, ast.Call)
+                                      and is_self(call.func, "_measure_depth") and len(call.args) == 2
+                                      and not call.keywords and isinstance(call.args[0], ast.Name)
+                                      and call.args[0].id == g.target.id):
+                    bad(st, "max(...) over something else than the children")
+                if nonempty is not True:
+                    bad(st, "max() over the children without an emptiness test before it (raises on an empty container)")
+                return f"{pad}Tr.measureMax md (y :: ys) ({nat(call.args[1])})\n"
+            return f"{pad}{nat(v)}\n"
+        if isinstance(st, ast.If):
+            test, body, orelse = st.test, st.body, st.orelse
+            while isinstance(test, ast.UnaryOp) and isinstance(test.op, ast.Not) and is_empty_test(test) is None:
+                test, body, orelse = test.operand, orelse, body
+            ks = kinds_of(test)
+            if ks is not None:
+                return block((body if kind in ks else orelse) + more, kind, nonempty, depth)
+            e = is_empty_test(test)
+            if e is not None:
+                if kind == "scalar":
+                    bad(st, "emptiness test on a scalar")
+                if nonempty is not None:
+                    return block((body if e != nonempty else orelse) + more, kind, nonempty, depth)
+                a, b = (body, orelse) if e else (orelse, body)
+                return (f"{pad}match xs with\n{pad}| [] =>\n" + block(a + more, kind, False, depth + 1)
+                        + f"{pad}| y :: ys =>\n" + block(b + more, kind, True, depth + 1))
+            if isinstance(test, ast.Compare) and len(test.ops) == 1:
+                sym = {ast.Lt: "<", ast.LtE: "≤", ast.Gt: ">", ast.GtE: "≥", ast.Eq: "=", ast.NotEq: "≠"}.get(type(test.ops[0]))
+                if sym:
+                    c = f"{nat(test.left)} {sym} {nat(test.comparators[0])}"
+                    return (f"{pad}if {c} then\n" + block(body + more, kind, nonempty, depth + 1)
+                            + f"{pad}else\n" + block(orelse + more, kind, nonempty, depth + 1))
+            bad(st, f"test {ast.unparse(st.test)[:40]}")
+        bad(st, f"statement {type(st).__name__}")
+
+    scalar = block(list(fn.body), "scalar", None, 2)
+    d, l = block(list(fn.body), "dict", None, 2), block(list(fn.body), "list", None, 2)
+    if d != l:
+        bad(fn, "the dict branch and the list branch differ")
+    return ("mutual\n/-- translation of `JSONValidator._measure_depth` (dicts and lists are both `node`) -/\n"
+            "def Tr.measure (md : Nat) : J → Nat → Nat\n"
+            "  | .scalar, cur =>\n" + scalar + "  | .node xs, cur =>\n" + d +
+            "/-- `max(self._measure_depth(v, cur) for v in children)` -/\n"
+            "def Tr.measureMax (md : Nat) : List J → Nat → Nat\n"
+            "  | [], _ => 0\n  | x :: xs, cur => max (Tr.measure md x cur) (Tr.measureMax md xs cur)\nend\n")
+
 
 # ------------------------------------------------------------------------------------------------------------------
 # the rate check as a CONCURRENT program: which statements touch the shared window, and where the lock is taken
@@ -1247,6 +1362,18 @@ def generate(repo: Path, membrane_mod=None, innate_mod=None):
         why = str(e).replace('"', "'")
         for sig in INNATE_FALLBACK:
             parts.append(f"{sig}\n  untranslatable \"{why}\"\n")
+    try:
+        if itree is None:
+            raise Unsupported("source does not parse")
+        MODULE_CONSTS.clear()
+        MODULE_CONSTS.update(consts["i"])
+        parts.append(tr_measure_depth(itree))
+    except Exception as e:  # noqa  (fail closed)
+        info["unsupported"]["measureDepth"] = str(e)
+        why = str(e).replace('"', "'")
+        parts.append("/-- translation of `JSONValidator._measure_depth`: NOT TRANSLATED -/\n"
+                     f"def Tr.measure (md : Nat) (t : J) (cur : Nat) : Nat :=\n  untranslatable \"{why}\"\n"
+                     f"def Tr.measureMax (md : Nat) (ts : List J) (cur : Nat) : Nat :=\n  untranslatable \"{why}\"\n")
     attempt("lengthValidate", lambda: tr_validator(itree, "LengthValidator", "lengthValidate", "(mn mx : Nat)",
                                                    {"content": ("content", "str"), "self.min_length": ("mn", "nat"),
                                                     "self.max_length": ("mx", "nat")}), "")
